@@ -754,7 +754,10 @@ class CallMixin:
                 self.emit("join", node, sep=recv, iterable=args[0] if args else None)
         if k is None and isinstance(recv, (Sym, Term)) and not (isinstance(recv, Term) and recv.op in ("getattr",)):
             pass
-        return Term("mcall", (recv, attr) + tuple(a for a in args if isinstance(a, V)), kind=kind, node=node)
+        t = Term("mcall", (recv, attr) + tuple(a for a in args if isinstance(a, V)), kind=kind, node=node)
+        if attr == "get_errors":
+            t.elem_kind = "ValidationError"  # type: ignore   # contract of ValidationResult
+        return t
 
     def accept(self, recv: V, args: List[Any], kwargs: Dict[str, V], node: Any) -> V:
         """member.__accept__(visitor, **ctx) on a symbolic schema: summarised by the visitor's contract."""
